@@ -47,7 +47,12 @@ def check(repo: Repo, run: Run) -> None:
     run.ob("R1", MOD, "constants", "KEVENT_SIZE equals the record decoder's size", ks == want_size and ks == 64,
            f"KEVENT_SIZE = {ks!r} but the record format {fmt!r} decodes {want_size} bytes: the loop reads records of the wrong size",
            facts={"KEVENT_SIZE": ks, "format": fmt})
-    loops = [lr for lr in rec.loops.values() if lr.func.endswith("parse_v2") and lr.kind in ("while", "for")]
+    # loops of parse_v2 itself or of a package generator it delegates to with `yield from` (expanded in place): the ones
+    # that read the stream or yield
+    def _active(lr):
+        return any(lr.id in c.loops and c.func == T("attr", (reader, "read")) for c in rec.calls) or \
+            any(lr.id in r.loops for r in rec.returns if r.kind in ("yield", "yield_from"))
+    loops = [lr for lr in rec.loops.values() if lr.kind in ("while", "for") and (lr.func.endswith("parse_v2") or _active(lr))]
     run.ob("R1", MOD, "KdBufParser.parse_v2", "one record loop", len(loops) == 1,
            f"parse_v2 has {len(loops)} loops; the property's structure is one read-64-bytes loop", line=fn.lineno)
     if len(loops) != 1:
@@ -133,6 +138,16 @@ def check(repo: Repo, run: Run) -> None:
                facts={"kind": child.kind, "size_class": list(child.size), "offset": off}, line=child.line,
                witness=None if ok else "v2 file, empty thread map, first record whose timestamp has a zero low byte "
                                        "(e.g. 0x1100): the record is misaligned and struct.error is raised")
+        if child.kind == "GreedyRange" and child.children:
+            # a filler skipper: the property quantifies over ALL padding lengths, so the repeated unit must be one byte
+            unit = child.children[0].size
+            oku = unit == ("fixed", 1)
+            run.ob("R2", MOD, "kd_header_v2", f"component {nm}: unit of repetition", oku,
+                   "" if oku else
+                   f"header component `{nm}` skips filler {unit[1] if unit[0] == 'fixed' else '?'} bytes at a time: a filler whose "
+                   f"length is not a multiple of that is only partly consumed and every record after it is read misaligned",
+                   facts={"unit": list(unit)}, line=child.line,
+                   witness=None if oku else "v2 file with 4 zero bytes between the thread map and the first record")
     run.floor("R2", "header components", n_comp, 6)
     first = hdr.children[0]
     ok = first.kind == "Int" and first.size == ("fixed", 4) and first.info.get("endian") == "l" and not first.info.get("signed")
